@@ -272,7 +272,27 @@ def check_programs(chk):
     for label, files, to_gen, param in (
             ("client_api/grpc+rest", apis.client_api(), None, "transport=grpc+rest"),
             ("paging_api/grpc", apis.paging_api(), None, "transport=grpc"),
-            ("two-files+dep", two_file_api(), ["google/example/tf/v1/a.proto", "google/example/tf/v1/b_c.proto"], "transport=rest,unknown-opt=1,python-gapic-bogus=2")):
+            ("three-files+dep", two_file_api(), ["google/example/tf/v1/a.proto", "google/example/tf/v1/b_c.proto",
+                                                 "google/example/tf/v1/b.c.proto"], "transport=rest,unknown-opt=1,python-gapic-bogus=2")):
+        # expectations are computed from the descriptors BEFORE generation (API.build renames fd.name in place)
+        import keyword
+        all_names = [m.DESCRIPTOR.name for m in gen.DEP_MODS] + [fb.f.name for fb in files]
+        targets = to_gen if to_gen is not None else [fb.f.name for fb in files]
+        by_name = {fb.f.name: fb.f for fb in files}
+        used, exp_types, exp_svcs = set(), [], []
+        for nm in all_names:
+            stem = posixpath.basename(nm)[:-len(".proto")].replace(".", "_")
+            full = posixpath.join(posixpath.dirname(nm), stem)
+            while stem in keyword.kwlist or stem in ("metadata", "retry", "timeout", "request") or full in used:
+                stem += "_"
+                full = posixpath.join(posixpath.dirname(nm), stem)
+            used.add(full)
+            if nm in targets and nm in by_name:
+                f_ = by_name[nm]
+                if f_.message_type or f_.enum_type:
+                    exp_types.append(stem + ".py")
+                exp_svcs += [_snake(s_.name) for s_ in f_.service]
+        exp_types, exp_svcs = sorted(exp_types), sorted(exp_svcs)
         g = gen.generate(files, parameter=param, to_generate=to_gen)
         chk.programs += 1
         names = [f.name for f in g.response.file]
@@ -288,13 +308,10 @@ def check_programs(chk):
         pkgroot = posixpath.commonpath([n for n in names if "/types/" in n or "/services/" in n])
         target = [f for f in g.request.proto_file if f.name in g.request.file_to_generate]
         types_mods = sorted(posixpath.basename(n) for n in names if posixpath.dirname(n) == pkgroot + "/types" and not n.endswith("__init__.py"))
-        exp_types = sorted(posixpath.basename(f.name).replace(".proto", ".py").replace(".", "_").replace("_py", ".py")
-                           for f in target if f.message_type or f.enum_type)
         if types_mods != exp_types:
             problems.append(f"types modules {types_mods} != {exp_types}")
         svc_dirs = sorted({n[len(pkgroot + '/services/'):].split("/")[0] for n in names
                            if n.startswith(pkgroot + "/services/") and n.count("/") > pkgroot.count("/") + 2})
-        exp_svcs = sorted(_snake(s.name) for f in target for s in f.service)
         if svc_dirs != exp_svcs:
             problems.append(f"service packages {svc_dirs} != {exp_svcs}")
         py_dirs = {posixpath.dirname(n) for n in names if n.endswith(".py") and n.startswith(pkgroot)}
@@ -320,13 +337,16 @@ def two_file_api():
     dep.message("DepMsg", [("x", "string")])
     a = gen.FileBuilder("google/example/tf/v1/a.proto", "google.example.tf.v1", deps=[dep.f.name])
     a.message("A", [("d", "msg:.google.example.dep.v1.DepMsg")])
+    # b_c.proto comes first; b.c.proto sanitises to the same module name and must be disambiguated
+    bc = gen.FileBuilder("google/example/tf/v1/b_c.proto", "google.example.tf.v1")
+    bc.message("Bc", [("x", "string")])
     b = gen.FileBuilder("google/example/tf/v1/b.c.proto", "google.example.tf.v1", deps=[a.f.name])
     b.message("B", [("a", "msg:A")])
     s = b.service("SvcOne")
     b.method(s, "Get", "B", "A", http=("get", "/v1/b"))
     s2 = b.service("SvcTwo")
     b.method(s2, "Put", "B", "A", http=("put", "/v1/b", "*"))
-    return [dep, a, b]
+    return [dep, a, bc, b]
 
 
 def body(chk: core.Check):
